@@ -319,7 +319,7 @@ def gen_session(rng, closed_only=False, gap_safe=False):
         elif u < 0.5:
             ops.append({"op": "FAULT", "kind": rng.choice(["noise", "scale", "deidem", "stale", "asym"]), "sigma": rng.choice([1e-6, 1e-3, 1e-1])})
         else:
-            cap = 1000 if (closed_only or rng.random() < 0.7) else rng.choice([3, 10, 50])
+            cap = 1000 if (closed_only or rng.random() < 0.7) else rng.choice([1, 2, 3, 10, 50])
             ops.append({"op": "SOLVE", "cfg": cfg(), "start": rng.choice(["cold", "carried", "carried", "carried"]), "cap": cap})
     if ops[-1]["op"] != "SOLVE":
         ops.append({"op": "SOLVE", "cfg": cfg(), "start": "carried", "cap": 1000})
